@@ -467,7 +467,7 @@ impl Prop for Quotes {
         "quotes"
     }
     fn cases(&self, tier: Tier) -> u64 {
-        tier.pick(1_500_000, 45_000_000)
+        tier.pick(1_500_000, 15_000_000)
     }
     fn strategy(&self, tier: Tier) -> BoxedStrategy<Case> {
         let mut shape = HistoryShape::default_for(tier);
